@@ -3400,7 +3400,9 @@ Proof.
     apply (nd_upd_keep valid). intros []; reflexivity. }
   assert (I0 : INQ t0) by (intros r Hr; rewrite V0 in Hr; apply (I r Hr)).
   unfold childrenLoop in H1.
-  destruct (childrenLoop_gen_valid t0 _ _ _ _ _ (heapOnly_refl t0) ltac:(auto) ltac:(intros ? [=]) H1) as (Ho1 & Q1 & Hh1).
+  assert (Hq0 : forall m, inHeap t0 m = true -> inHeap t0 m = true \/ valid (nd t0 m) = true) by auto.
+  assert (Hn0 : forall h : nid, None = Some h -> valid (nd t0 h) = true) by (intros ? [=]).
+  destruct (childrenLoop_gen_valid t0 _ _ _ _ _ (heapOnly_refl t0) Hq0 Hn0 H1) as (Ho1 & Q1 & Hh1).
   assert (Q2 : heapOnly t0 t2 /\ forall m, inHeap t2 m = true -> inHeap t0 m = true \/ valid (nd t0 m) = true).
   { destruct held as [h|]; [|injection H2 as <- <-; auto].
     destruct (canRecomputeImmediately t1 n h); [injection H2 as <- <-; auto|].
@@ -3413,4 +3415,63 @@ Proof.
   rewrite (heapOnly_nd _ _ r Ho2) in Hr.
   destruct (inHeap t2 r) eqn:E; [|reflexivity]. destruct (Q2 r E) as [Hq|Hq]; [|congruence].
   rewrite (I0 r Hr) in Hq. discriminate.
+Qed.
+
+(** * 9. Helpers for the examples in Properties/C03, C07, C08, C11, C12, C13 *)
+Definition reach (os : list op) : state := match run (init 256) os with Ok s => s | _ => init 0 end.
+
+Definition ids_below_b (s : state) : bool :=
+  forallb (fun kv => (fst kv <? next s)%nat) (map_to_list (nodes s)).
+
+Lemma ids_below_b_sound s : ids_below_b s = true -> ids_below s.
+Proof.
+  intros H n [x Hx]. apply elem_of_map_to_list in Hx.
+  pose proof (forallb_elem _ _ _ H Hx) as E. cbn in E. apply Nat.ltb_lt in E. exact E.
+Qed.
+
+Definition all_vars_b (s : state) (l : list nid) : bool := forallb (isVar s) l.
+Lemma all_vars_b_sound s l : all_vars_b s l = true -> Forall (fun v => isVar s v = true) l.
+Proof. intros H. apply Forall_forall. intros v Hv. apply (forallb_elem _ _ _ H), elem_of_list_In, Hv. Qed.
+
+Lemma passResult_deferred_are_vars p c s sL e at_ always :
+  ids_below s -> plan_ok s p = true ->
+  Forall (fun v => isVar s v = true) (setDuring s ++ setRemoved s) ->
+  passResult p c s = Ok (sL, e, at_, always) ->
+  Forall (fun v => isVar sL v = true) (setRemoved sL ++ setDuring sL).
+Proof.
+  intros Hids Hp Hv H.
+  destruct (passResult_frames _ _ _ _ _ _ _ H) as (Hpf & Hwv & _).
+  exact (pass_deferred_are_vars (passStart s) sL p Hids Hp Hv Hpf (Hwv Hp)).
+Qed.
+
+(* example histories *)
+Definition ex12 : list op := [NewVar 3 false; NewMap (Aff 1 1) 0%nat; Observe 1%nat; Stabilize []].
+Definition ex11 : list op :=
+  [NewVar 3 false; NewCutoff CParity 0%nat; NewMap (Aff 1 0) 1%nat; Observe 2%nat; Stabilize []].
+Definition ex08 : list op :=
+  [NewVar 1 false; NewBind [TMap (Aff 1 0) (TMap (Aff 1 0) TX)] 0%nat; Observe 2%nat; Stabilize []].
+
+(** C08.4 REFUTED as a statement about all well-formed operation sequences: an invalid node can be
+    queued and is then recomputed.  [MapN.AddInput] on a MapN that was invalidated (it read a node
+    of a discarded right-hand side) calls [SetStale] / [addChild], which queue it without looking
+    at [valid]; the pass pops it and runs its function on the discarded node's last value.
+    (Checked on the Go library as well: the function of the invalid MapN runs again.)
+    Sites that queue WITHOUT a validity test: [setStale] (Var.Set, AddInput, RemoveInput, deferred
+    writes), the final [heapAddIfNotPresent child] of [addChild], [recomputeFailed] and the
+    panic recover (re-queue the node that was being recomputed), the re-queue of always nodes,
+    [heapFix].  Sites that test: the children loop ([shouldRecomputeChild], see
+    [C08_owed_child_is_valid] and [INQ_successTail]), [becameNecessaryRecursive] ([isStale]),
+    [propagateInvalidity] ([propagateInvalidity_valid]). *)
+Definition ex08_invalid_queued : list op :=
+  [NewVar 1 false; NewBind [TMap (Aff 1 0) TX; TMap (Aff 1 1) TX] 0%nat; Observe 2%nat; Stabilize [];
+   NewMapN Sum [4%nat]; Observe 6%nat; Stabilize []; SetVar 0%nat 2; Stabilize []; AddInput 6%nat 0%nat].
+
+Lemma C08_popped_invalid_does_not_run_refuted :
+  exists s s', run (init 256) ex08_invalid_queued = Ok s /\
+    valid (nd s 6%nat) = false /\ inHeap s 6%nat = true /\
+    stabilize [] false (s <| log := [] |>) = Ok (s', None) /\
+    rev (log s') = [EvPassStart; EvInvoked 6%nat [1; 2] 3; EvPassEnd XOk; EvUpd 6%nat; EvObsUpd 7%nat 3].
+Proof.
+  eexists _, _. split; [vm_compute; reflexivity|]. split; [vm_compute; reflexivity|].
+  split; [vm_compute; reflexivity|]. split; [vm_compute; reflexivity|]. vm_compute. reflexivity.
 Qed.
